@@ -797,14 +797,24 @@ fn info_command(input: PathBuf, verbose: bool, json: bool) -> Result<()> {
     let mut boxes = Vec::new();
     let mut offset = 0;
     while offset + 8 <= buffer.len() {
-        let size = u32::from_be_bytes(buffer[offset..offset + 4].try_into().unwrap()) as usize;
+        let size32 = u32::from_be_bytes(buffer[offset..offset + 4].try_into().unwrap());
         let typ = &buffer[offset + 4..offset + 8];
 
-        if size == 0 {
-            break; // Last box
-        }
+        // ISO/IEC 14496-12 4.2: size 0 means the box extends to the end of the file, size 1
+        // means a 64-bit size follows the type.
+        let size = match size32 {
+            0 => buffer.len() - offset,
+            1 if offset + 16 <= buffer.len() => {
+                let large = u64::from_be_bytes(buffer[offset + 8..offset + 16].try_into().unwrap());
+                if large < 16 {
+                    break; // a 64-bit size cannot be smaller than its own header
+                }
+                usize::try_from(large).unwrap_or(usize::MAX)
+            }
+            n => n as usize,
+        };
 
-        if offset + size > buffer.len() {
+        if size > buffer.len() - offset {
             boxes.push(serde_json::json!({
                 "type": "invalid",
                 "size": size,
